@@ -90,7 +90,7 @@ func NewContractSet() *ContractSet {
 	return &ContractSet{Funcs: map[string]*FuncContract{}, Specs: map[string]*SpecFn{}, Ghosts: map[string]*GhostDecl{}, Invs: map[string]*NamedInv{}, OpaqueSorts: map[string]bool{}}
 }
 
-var kwRe = regexp.MustCompile(`^(spec|axiom|ghost|inv|func|extern|requires|ensures|maintains|modifies|may_panic|deterministic|nooverflow|inline|mode|bytes|loop|assert|locals|lemma|uses|unfold|counts|on_send|names|trusted|pure|opaque|reveal|bounded|keyfns|keyfn|sort|replay|abstract)\b`)
+var kwRe = regexp.MustCompile(`^(spec|axiom|ghost|inv|func|extern|requires|ensures|maintains|modifies|may_panic|deterministic|nooverflow|inline|mode|bytes|loop|assert|locals|lemma|uses|unfold|counts|on_send|forwards|pure_funcvalues|readonly_funcvalues|names|trusted|pure|opaque|reveal|bounded|keyfns|keyfn|sort|replay|abstract)\b`)
 
 // logical lines: (keyword, rest, line number)
 type cline struct {
@@ -229,7 +229,7 @@ func (cs *ContractSet) LoadFile(path, pkgPath string) error {
 					cur.Modifies = append(cur.Modifies, m)
 				}
 			}
-		case "may_panic", "deterministic", "nooverflow", "inline", "trusted", "pure", "opaque", "bounded", "keyfn", "abstract", "unfold":
+		case "may_panic", "deterministic", "nooverflow", "inline", "trusted", "pure", "opaque", "bounded", "keyfn", "abstract", "unfold", "pure_funcvalues", "readonly_funcvalues":
 			if cur == nil {
 				return fmt.Errorf("%s:%d: flag outside func", path, l.line)
 			}
@@ -238,7 +238,7 @@ func (cs *ContractSet) LoadFile(path, pkgPath string) error {
 				v = "true"
 			}
 			cur.Flags[l.kw] = v
-		case "mode", "bytes", "replay", "counts", "on_send":
+		case "mode", "bytes", "replay", "counts", "on_send", "forwards":
 			cur.Flags[l.kw] = l.rest
 		case "locals", "reveal":
 			// informational
@@ -283,7 +283,7 @@ func (cs *ContractSet) LoadFile(path, pkgPath string) error {
 			if err != nil {
 				return err
 			}
-			if f := strings.Fields(where); len(f) == 2 && (f[0] == "after" || f[0] == "before") {
+			if f := strings.Fields(where); len(f) == 2 && (f[0] == "after" || f[0] == "before" || (f[0] == "at" && f[1] == "end")) {
 				// anchored at the top-level statement that first defines/assigns the named variable
 				if cur.NamedAsserts == nil {
 					cur.NamedAsserts = map[string][]*Clause{}
